@@ -77,9 +77,10 @@ PROPS = {
                 'scanned with NameArguments on and off; non-trivial = at least one argument named; distinct by input hash',
     },
     'C01': {
-        'extra_props': ['C00_pipeline'],
-        'ops': [('scan', 500, 30000, ('-mix', 'c01')), ('step', 200, 10000)],
-        'corr': ['corr:snap', 'corr:err', 'corr:panic', 'corr:rest', 'corr:fwd', 'corr:step-trace', 'corr:step-goroutines'],
+        'extra_props': ['C00_pipeline', 'C00_regex'],
+        'regex_check': True,
+        'ops': [('scan', 500, 30000, ('-mix', 'c01')), ('step', 200, 10000), ('regex', 3000, 60000)],
+        'corr': ['corr:snap', 'corr:err', 'corr:panic', 'corr:rest', 'corr:fwd', 'corr:step-trace', 'corr:step-goroutines', 'corr:regex', 'corr:matcher'],
         'prop': ['C01'],
         'nontrivial': ['gs='],
         'input_fields': 1,
@@ -89,8 +90,10 @@ PROPS = {
                 'file lines x indented blank lines; three-way comparison: implementation snapshot = model snapshot = the snapshot the AST denotes; non-trivial = a snapshot was returned',
     },
     'C08': {
-        'ops': [('scan', 400, 20000, ('-mix', 'c08')), ('step', 200, 10000)],
-        'corr': ['corr:snap', 'corr:err', 'corr:panic', 'corr:rest', 'corr:fwd', 'corr:step-trace', 'corr:step-goroutines'],
+        'extra_props': ['C00_regex'],
+        'regex_check': True,
+        'ops': [('scan', 400, 20000, ('-mix', 'c08')), ('step', 200, 10000), ('regex', 1500, 30000)],
+        'corr': ['corr:snap', 'corr:err', 'corr:panic', 'corr:rest', 'corr:fwd', 'corr:step-trace', 'corr:step-goroutines', 'corr:regex', 'corr:matcher'],
         'prop': ['C08', 'C02:region'],
         'nontrivial': ['gs='],
         'input_fields': 1,
@@ -111,8 +114,9 @@ PROPS = {
     },
     'C03': {
         'extra_props': ['C02b', 'C00_pipeline'],
-        'ops': [('scan', 1500, 150000, ('-mix', 'c03')), ('scan', 200, 10000, ('-mix', 'c02')), ('scanseq', 60, 3000), ('pp', 30, 2000), ('aggregate', 300, 20000), ('html', 100, 5000), ('scan', 1000, 25259, ('-mix', 'kinds')), ('step', 400, 20000), ('sigops', 300, 10000), ('ast', 40, 400), ('guess', 80, 2000), ('augment', 100, 3000)],
-        'corr': ['corr:panic', 'corr:snap', 'corr:err', 'corr:seq', 'corr:step-trace'],
+        'ops': [('scan', 1500, 150000, ('-mix', 'c03')), ('scan', 200, 10000, ('-mix', 'c02')), ('scanseq', 60, 3000), ('pp', 30, 2000), ('aggregate', 300, 20000), ('html', 100, 5000), ('scan', 1000, 25259, ('-mix', 'kinds')), ('step', 400, 20000), ('sigops', 300, 10000), ('ast', 40, 400), ('guess', 80, 2000), ('augment', 100, 3000), ('regex', 1500, 30000)],
+        'regex_check': True,
+        'corr': ['corr:panic', 'corr:snap', 'corr:err', 'corr:seq', 'corr:step-trace', 'corr:regex', 'corr:matcher'],
         'prop': ['C03'],
         'nontrivial': ['kind=', 'calls='],
         'input_fields': 1,
@@ -138,9 +142,10 @@ PROPS = {
                 'implementation trace alone: every complete forwarded line within the delivered bytes is already written, no Read after the line that ends the dump',
     },
     'C07': {
-        'extra_props': ['C07c'],
-        'ops': [('scanseq', 200, 10000), ('scan', 200, 5000, ('-mix', 'c02')), ('pppipe', 10, 120), ('scan', 2200, 25259, ('-mix', 'kinds'), 'exact'), ('step', 600, 30000), ('pp', 40, 2000)],
-        'corr': ['corr:seq', 'corr:seqrest', 'corr:panic', 'corr:snap', 'corr:rest', 'corr:pp:pipe', 'corr:pp-exit:pipe', 'corr:pp:plain', 'corr:pp-exit:plain', 'corr:step-trace', 'corr:step-sessions', 'corr:step-goroutines'],
+        'extra_props': ['C07c', 'C00_regex'],
+        'regex_check': True,
+        'ops': [('scanseq', 200, 10000), ('scan', 200, 5000, ('-mix', 'c02')), ('pppipe', 10, 120), ('scan', 2200, 25259, ('-mix', 'kinds'), 'exact'), ('step', 600, 30000), ('pp', 40, 2000), ('regex', 1500, 30000)],
+        'corr': ['corr:regex', 'corr:matcher', 'corr:seq', 'corr:seqrest', 'corr:panic', 'corr:snap', 'corr:rest', 'corr:pp:pipe', 'corr:pp-exit:pipe', 'corr:pp:plain', 'corr:pp-exit:plain', 'corr:step-trace', 'corr:step-sessions', 'corr:step-goroutines'],
         'prop': ['C07', 'C02:region', 'C02:pp', 'C11:pp'],
         'nontrivial': ['dumps=', 'kind=', 'sessions='],
         'input_fields': 1,
@@ -150,7 +155,7 @@ PROPS = {
                 'step (hook VerifStepper): scanningState.scan driven line by line under the ScanSnapshot/resume protocol, the state, consumed flag and error of EVERY line compared with the model scan (whose control is proved equal to the reference automaton Spec/RefGrammar.ref_step, C07c)',
     },
     'C10': {
-        'ops': [('cut', 8, 300)],
+        'ops': [('cut', 8, 40, (), 'exact')],
         'corr': ['corr:snap', 'corr:fwd', 'corr:err', 'corr:rest', 'corr:panic'],
         'prop': ['C10'],
         'nontrivial': ['cgs='],
@@ -171,9 +176,10 @@ PROPS = {
     },
     'C17': {
         'tpl_check': True,
-        'extra_props': ['C17b', 'C17c'],
-        'ops': [('html', 300, 10000)],
-        'corr': ['corr:attrs', 'corr:html-region', 'corr:html-page', 'corr:panic'],
+        'regex_check': True,
+        'extra_props': ['C17b', 'C17c', 'C00_regex'],
+        'ops': [('html', 300, 10000), ('regex', 1500, 30000)],
+        'corr': ['corr:attrs', 'corr:html-region', 'corr:html-page', 'corr:panic', 'corr:regex', 'corr:matcher'],
         'prop': ['C17'],
         'nontrivial': ['attrs='],
         'input_fields': 3,
@@ -184,8 +190,10 @@ PROPS = {
                 'is compared byte for byte with the extracted page model (Model/HtmlPage.v), whose template literals (Model/HtmlTpl.v) are generated from stack/goroutines.tpl and checked to be current on every run',
     },
     'C18': {
-        'ops': [('guess', 150, 5000)],
-        'corr': ['corr:guess', 'corr:panic'],
+        'extra_props': ['C00_regex'],
+        'regex_check': True,
+        'ops': [('guess', 150, 5000), ('regex', 1500, 30000)],
+        'corr': ['corr:guess', 'corr:panic', 'corr:regex', 'corr:matcher'],
         'prop': ['C18'],
         'nontrivial': ['resolved'],
         'input_fields': 4,
